@@ -194,6 +194,12 @@ class C09(Check):
                 # resolve; the explicit form is only available for a plane image surface
                 out.cls('curved_refracting_image_surface_not_judged')
                 return
+            if any(q['type'] == 'standard' and q['R'] != GL.INF and abs(1 + q['k']) < 0.05 for q in spec['surfs']):
+                # the explicit form is a second Optic: on near-paraboloids the two traces carry different conic-root
+                # noise (open finding C05-/C02-parabola-cancellation, 1e-8 mm of path), which the comparison of one
+                # Optic with a reference built from its own recorded points never sees
+                out.cls('refracting_image_behind_a_near_paraboloid_not_judged')
+                return
             spec_ref = explicit_rear_face(spec)
             o_ref = build(spec_ref)
             ps = GL.parax_sys(spec_ref)
@@ -257,7 +263,10 @@ class C09(Check):
                 if np.any(fg) and (np.all(np.abs(W[fg] - Wm_g[fg]) <= tol) or np.all(np.abs(W[fg] - Wp_g[fg]) <= tol)):
                     ok_m = True
                     out.cls('sphere_in_front_of_refracting_image_surface')
-                elif out.kf_open('C09-image-surface-refracts'):
+                elif spec['surfs'][-1].get('stop') and out.kf_open('C09-image-surface-refracts'):
+                    # (the finding's region: the stop is the last surface, where XPL() is the distance to that surface;
+                    # with the stop further in front XPL() includes the refraction at the image surface and the library
+                    # agrees with the explicit form)
                     # weakened relation of the known finding (what the code does): the exit pupil seen from the medium
                     # in front of the image surface, the directions and the index of the medium behind it
                     out.region('C09-image-surface-refracts')
